@@ -179,29 +179,20 @@ class PopulationSizeHistory:
         """
         assert shape > 0, "Gamma shape parameter must be positive"
         assert rate > 0, "Gamma rate parameter must be positive"
-        C = np.exp(shape * np.log(rate) - scipy.special.loggamma(shape))
+        # NB: C * gamma(shape + q) / rate ** (shape + q), with C the gamma normalising
+        # constant, equals the rising factorial (shape)_q / rate ** q: use that directly
+        # so that large shapes / rates do not overflow
         gamma_cdf = scipy.special.gammainc
         cdf_breaks = np.append(self.coalescent_breaks, [np.inf])
-        cdf_0 = (
-            C
-            * scipy.special.gamma(shape)
-            / rate**shape
-            * np.diff(gamma_cdf(shape + 0, rate * cdf_breaks))
-        )
+        cdf_0 = np.diff(gamma_cdf(shape + 0, rate * cdf_breaks))
         mn_coef_0 = self.time_breaks - self.population_size * self.coalescent_breaks
         va_coef_0 = mn_coef_0**2
-        cdf_1 = (
-            C
-            * scipy.special.gamma(shape + 1)
-            / rate ** (shape + 1)
-            * np.diff(gamma_cdf(shape + 1, rate * cdf_breaks))
-        )
+        cdf_1 = shape / rate * np.diff(gamma_cdf(shape + 1, rate * cdf_breaks))
         mn_coef_1 = self.population_size
         va_coef_1 = mn_coef_0 * mn_coef_1 * 2
         cdf_2 = (
-            C
-            * scipy.special.gamma(shape + 2)
-            / rate ** (shape + 2)
+            (shape / rate)
+            * ((shape + 1) / rate)
             * np.diff(gamma_cdf(shape + 2, rate * cdf_breaks))
         )
         va_coef_2 = mn_coef_1**2
